@@ -110,4 +110,15 @@ theorem append_stable_text (b : MediaPlaylistBuilder) (y t : Str) (p p' : MediaP
   subst e1
   exact C16.append_stable b ls ex p p' a1 a1' (hns ex e2)
 
+/-- **truncation inside an item, string level**: whatever text is accepted, its classified lines never end inside an
+item — no segment tag (EXTINF, BYTERANGE, DISCONTINUITY, KEY, MAP, PROGRAM-DATE-TIME, DATERANGE) is left without the
+URI line that closes the item. Equivalently: a text whose lines classify to `pre ++ t :: post` with `t` such a tag and
+no URI line in `post` is rejected by every parse entry point. -/
+theorem cut_inside_item_rejected_text (b : MediaPlaylistBuilder) (s rest : Str) (pre post : List Line) (t : Line)
+    (hs : stripTag s pfxM3u = .ok rest) (hl : lineItems rest = (pre ++ t :: post).map Res.ok)
+    (ht : C16.isSegmentTag t = true) (hno : ∀ l ∈ post, C16.isUriLine l = false) :
+    (parseMediaWith b s).isOk = false := by
+  rw [parseMediaWith_of_lines b s rest _ hs hl]
+  exact C16.cut_inside_item_rejected b pre post t ht hno
+
 end Hls.C16T
